@@ -684,7 +684,7 @@ class MosaikRemote(mosaik_api_v3.MosaikProxy):
                 "mode."
             )
         if event_time < self.world.until:
-            sim.schedule_step(TieredTime(event_time))
+            sim.schedule_step(TieredTime(event_time) + sim.from_world_time)
         else:
             logger.warning(
                 "Event set at {event_time} by {sim_id} is after simulation end {until} "
